@@ -30,6 +30,8 @@ def gen_cases(tier, seed, search):
         if total // chunk > 20000:
             chunk = max(chunk, total // 2000)
         ops = ["settle"] if rnd.random() < 0.7 else []
+        if rnd.random() < 0.12:
+            ops.append("adaptsame")
         remaining = total
         if mode == "read":
             while remaining > 0:
@@ -64,6 +66,11 @@ def split_cases(lines):
 
 
 SPECIAL = [
+    # a refused adapt_io on the fd of a live adapter (EEXIST) leaves that adapter registered and working
+    ["case adaptsame_parked_reader", "mode read", "blocking 1", "total 100 chunk 10", "finish drop", "probe 0",
+     "settle", "adaptsame", "peer 50", "settle", "adaptsame", "peer 50", "settle", "settle", "end"],
+    ["case adaptsame_parked_writer", "mode write", "blocking 0", "total 400000 chunk 100000", "finish drop", "probe 0",
+     "settle", "adaptsame", "peer 300000", "settle", "finishpeer", "end"],
     # C15/C17: adapting an fd the poller refuses fails cleanly (slot freed, blocking mode restored)
     ["case adaptfail_blocking", "mode adaptfail", "blocking 1", "end"],
     ["case adaptfail_nonblocking", "mode adaptfail", "blocking 0", "end"],
